@@ -38,7 +38,7 @@ static inline size_t iora_skey_size(const iora_skey *k) { return k->n; }
 #else
 #define IORA_SMAP1_REPOS(m) { }
 #endif
-#define IORA_SMAP1_GROW(m) { if ((m)->n < (size_t)-1) (m)->n++; IORA_SMAP1_REPOS(m) }   /* braces, not do{}while(0): see iora_base.h canaries */
+#define IORA_SMAP1_GROW(m) { if ((m)->n < ~(size_t)0) (m)->n++; IORA_SMAP1_REPOS(m) }   /* braces, not do{}while(0): see iora_base.h canaries */
 #define IORA_SMAP1_SHRINK(m) { if ((m)->n > 0) (m)->n--; IORA_SMAP1_REPOS(m) }
 #define IORA_SMAP1(M, V, VDEFAULT) \
 typedef struct { bool has; V val; V other; bool touched; bool gtouched; iora_skey lastkey; \
